@@ -98,6 +98,8 @@ func content(name string) []byte {
 		return []byte("y")
 	case "xy":
 		return []byte("xy")
+	case "bx":
+		return []byte("bx")
 	case "k4":
 		return pat(4096)
 	case "k4e":
@@ -151,9 +153,10 @@ func c04States() []map[string]string {
 	}
 	return []map[string]string{
 		base,
-		clone(base, map[string]string{"c": "k4e", "d/ab": "k64m", "big70": "k70m", "big1m": "m1e"}), // single-byte changes, also beyond 4 KiB / 64 KiB / 1 MiB
-		clone(base, map[string]string{"a": "y", "b": "x"}),                                          // a and b swapped... (b was y, a was x)
-		clone(base, map[string]string{"d/ab": "k64e", "e": "x", "a": "empty"}),                      // last byte; empty <-> non-empty
+		clone(base, map[string]string{"c": "k4e", "d/ab": "k64m", "big70": "k70m", "big1m": "m1e"}),    // single-byte changes, also beyond 4 KiB / 64 KiB / 1 MiB
+		clone(base, map[string]string{"a": "y", "b": "x"}),                                             // a and b swapped... (b was y, a was x)
+		clone(base, map[string]string{"d/ab": "k64e", "e": "x", "a": "empty"}),                         // last byte; empty <-> non-empty
+		clone(base, map[string]string{"a": "bx", "ab": "x", "abc": "empty", "d/a": "bx", "d/ab": "x"}), // path/content boundary: "a"+"bx" vs "ab"+"x"
 		base, // reverted: every digest must be the one of the first state again
 	}
 }
@@ -430,6 +433,32 @@ func c04Worker(c *core.Ctx, job hashJob, res *core.ShardResult, wl *core.WLog) {
 		}
 		res.Count("lists", 1)
 	}
+	// within one process: the content of a file changes while its size and modification time stay
+	// the same (cp -p, rsync -t, a build step restoring timestamps)
+	priv := fmt.Sprintf("priv.%d.%d", os.Getpid(), st.ID)
+	full := filepath.Join(st.Root, priv)
+	defer os.Remove(full)
+	for step, body := range []string{"AAAA", "AAAB", "AAAA", "BAAA"} {
+		var mt time.Time
+		if fi, err := os.Stat(full); err == nil {
+			mt = fi.ModTime()
+		}
+		_ = os.WriteFile(full, []byte(body), 0o644)
+		if !mt.IsZero() {
+			_ = os.Chtimes(full, mt, mt)
+		}
+		o := callHash([]string{full, filepath.Join(st.Root, "a")}, false, nil)
+		res.Evaluations++
+		if o.Err != nil {
+			continue
+		}
+		sums := map[string]string{priv: core.ShaHex([]byte(body)), "a": st.Sums["a"]}
+		tmp := hashState{Root: st.Root, Sums: sums}
+		mk, sk, nf := c04Keys(tmp, []string{priv, "a"})
+		lj, _ := json.Marshal([]string{priv + "=" + body, "a"})
+		fmt.Fprintf(w, "%s\t%s\t%s\t%d\t%d\t%s\n", mk, sk, o.Digest, st.ID, nf, lj)
+		res.Count("same_size_same_mtime_edits", int64(step&1))
+	}
 }
 
 // ---------------------------------------------------------------------------
@@ -534,7 +563,7 @@ func c04Run(c *core.Ctx) bool {
 	cov := map[string]any{
 		"evaluations":             total.Evaluations,
 		"distinct_nontrivial":     total.Nontrivial,
-		"rule":                    "a universe of 11 files (names that are prefixes/concatenations of each other, nested, empty, 70 KB, 1 MiB+1) plus directories and bulk files is materialised in 5 successive content states at the same paths (single-byte changes at the last byte / beyond 4 KiB, 64 KiB and 1 MiB, swapped contents, empty<->non-empty, revert); in every state every sub-list of size <=3, sampled larger ones, lists with duplicates, with directories and of the sizes around the worker-count boundaries are hashed repeatedly in shuffled order by child processes for each (taskset CPUs, GOMAXPROCS) configuration, with seeded delays at hash.worker.send. One global table over all states and configurations: equal multiset of (abs path, content) => equal digest; equal digest => equal underlying set. evaluations = Hash calls; non-trivial = distinct multisets with >=2 files",
+		"rule":                    "a universe of 11 files (names that are prefixes/concatenations of each other, nested, empty, 70 KB, 1 MiB+1) plus directories and bulk files is materialised in 6 successive content states at the same paths (a state in which path and content share a boundary - file a = 'bx' next to file ab = 'x' -, single-byte changes at the last byte / beyond 4 KiB, 64 KiB and 1 MiB, swapped contents, empty<->non-empty, revert); every worker also rewrites a private file in place with the same size and modification time and hashes it again in the same process; in every state every sub-list of size <=3, sampled larger ones, lists with duplicates, with directories and of the sizes around the worker-count boundaries are hashed repeatedly in shuffled order by child processes for each (taskset CPUs, GOMAXPROCS) configuration, with seeded delays at hash.worker.send. One global table over all states and configurations: equal multiset of (abs path, content) => equal digest; equal digest => equal underlying set. evaluations = Hash calls; non-trivial = distinct multisets with >=2 files",
 		"samples":                 []any{map[string]any{"state": states[1], "example_lists": [][]string{{"a", "ab"}, {"ab", "a"}, {"a", "a"}, {"d", "a"}, {"big1m", "c", "d/ab"}}}},
 		"counters":                total.Counters,
 		"observations":            ntriples,
@@ -621,7 +650,7 @@ type c18case struct {
 func (k c18case) key() string { return fmt.Sprintf("%d/%d/%s", k.Size, k.Pos, k.Hostile) }
 
 var c18Hostiles = []string{"none", "missing", "dangling-symlink", "directory", "symlink-to-directory", "duplicate",
-	"vanishes-before-open", "truncated-after-open", "replaced-after-open", "unreadable-proc-mem", "two-missing", "missing-dir"}
+	"vanishes-before-open", "truncated-after-open", "replaced-after-open", "unreadable-proc-mem", "two-missing", "missing-dir", "empty-path", "nul-in-path", "name-too-long", "file-as-directory"}
 
 func c18Cases(c *core.Ctx) []c18case {
 	var out []c18case
@@ -645,7 +674,7 @@ func c18Cases(c *core.Ctx) []c18case {
 		sizes = append(sizes, 2000)
 	}
 	for _, sz := range sizes {
-		for _, h := range []string{"none", "missing", "vanishes-before-open", "duplicate", "directory", "unreadable-proc-mem"} {
+		for _, h := range []string{"none", "missing", "vanishes-before-open", "duplicate", "directory", "unreadable-proc-mem", "empty-path"} {
 			pos := []int{0, sz / 2, sz - 1}
 			if h == "none" {
 				pos = []int{0}
@@ -690,6 +719,18 @@ func c18Build(root string, k c18case) (list []string, wantErr, undecided bool, p
 		wantErr = true
 	case "dangling-symlink":
 		set(filepath.Join(root, "dangling"))
+		wantErr = true
+	case "empty-path":
+		set("")
+		wantErr = true
+	case "nul-in-path":
+		set(filepath.Join(root, "a\x00b"))
+		wantErr = true
+	case "name-too-long":
+		set(filepath.Join(root, strings.Repeat("n", 300)))
+		wantErr = true
+	case "file-as-directory":
+		set(filepath.Join(root, "bulk/f00000") + "/")
 		wantErr = true
 	case "directory":
 		set(filepath.Join(root, "dd"))
